@@ -506,10 +506,21 @@ fn run_unit_runner(cfg: &RunCfg, unit: &Unit, runner_idx: usize, cases: u32, fea
     // memcheck sample: the first passing non-trivial cases of every runner (a deterministic
     // function of seed and tree, not of time)
     let vg_quota = Mutex::new(if cfg.no_valgrind { 0u32 } else if cfg.thorough { 25 } else { 2 });
+    // shrinking is bounded by iterations (3000) and by wall time: a failure whose every
+    // re-execution takes seconds of real time (a worker blocked in the kernel) would
+    // otherwise be minimised for half an hour. the bound only affects how small the replay
+    // file gets, never the verdict
+    let shrink_started: Mutex<Option<std::time::Instant>> = Mutex::new(None);
     let res = runner.run(&strat, |case| {
         let shrinking = first_fp.lock().unwrap().is_some();
         if !shrinking && stop.load(Ordering::SeqCst) {
             return Ok(());
+        }
+        if shrinking {
+            let mut st = shrink_started.lock().unwrap();
+            if st.get_or_insert_with(std::time::Instant::now).elapsed() > Duration::from_secs(90) {
+                return Ok(());
+            }
         }
         if let Some((i, v)) = dev_filter() {
             // development aid only (MV_FILTER=cfg<i>=<v>): look at one sub-family
